@@ -19,9 +19,11 @@ RULE = ("seeded expression trees (depth <= 3 quick, <= 5 thorough) over 9 quanti
         "exponents, zero totals), zero divisors, units with an affine offset inside products; "
         "distinct = distinct (op, operand quantities, exact values); non-trivial = the operation succeeded "
         "on two different quantities (for **: n >= 2); "
-        "Array leg: 30% of the multiplications are also evaluated with Arrays (float64 ndarray / list / tuple, 2-3 "
+        "Array leg: 30% of the multiplications are also evaluated with Arrays (ndarray / list / tuple, 2-3 "
         "elements) on ONE pair of operand objects reused for a*b, b*a, a*b again, (a*b)/b, a/b, a//b; every element "
-        "of every step is a case")
+        "of every step is a case; ndarray leaves of shallow operands also with element types int64, int32, "
+        "float32 on the left, the right or both sides (exact integer values go to the model; bound with eps = 2**-24 "
+        "where float32 takes part)")
 EXHAUSTIVE = {"quick": False, "thorough": False}
 ASSUMPTIONS = ["float results stay within K*eps*M (K=64) of the exact model: checked on every run, not proved",
                "float // is compared with the exact floor except when the exact quotient is within K*eps*M of an integer",
@@ -140,7 +142,11 @@ def _oracle_array(c, ctx):
     t = c["_t"]
     ar = t["arr"]
     db = ctx.uni.db
-    sa, sb = A.arr_sems(t["a"], ar["mult"], db), A.arr_sems(t["b"], ar["mult"], db)
+    dts, tol = A.arr_dts(ar), A.arr_tol(ar)
+    sa, sb = A.arr_sems(t["a"], ar["mult"], db, dts[0]), A.arr_sems(t["b"], ar["mult"], db, dts[1])
+
+    def rc(x, y, scale=0.0):
+        return A.rel_close(x, y, scale, tol)
     if any(x is None for x in sa + sb) or not all(x[2] for x in sa + sb):
         return None  # the property speaks about scale-only units
     if any(x[1] is None or not math.isfinite(x[1]) for x in sa + sb):
@@ -148,13 +154,15 @@ def _oracle_array(c, ctx):
     import numpy
 
     def fail(clause, **kw):
-        return _fail(clause, c, container=ar["kind"], element_multipliers=ar["mult"], **kw)
+        return _fail(clause, c, container=ar["kind"], element_multipliers=ar["mult"],
+                     element_types=dict(zip(("a", "b"), dts)), **kw)
 
     da, dbm = sa[0][0], sb[0][0]
     ma, mb = [x[1] for x in sa], [x[1] for x in sb]
     with numpy.errstate(all="ignore"):
         try:
-            a, b = A.build_array(t["a"], ar["mult"], ar["kind"]), A.build_array(t["b"], ar["mult"], ar["kind"])
+            a = A.build_array(t["a"], ar["mult"], ar["kind"], dts[0])
+            b = A.build_array(t["b"], ar["mult"], ar["kind"], dts[1])
             a0, b0 = A.elems(a), A.elems(b)
         except Exception:
             return None
@@ -167,7 +175,7 @@ def _oracle_array(c, ctx):
                             result=repr(res))
             got = A.mags_of(res, db)
             for i in range(n):
-                if math.isfinite(got[i]) and math.isfinite(want_m[i]) and not A.rel_close(got[i], want_m[i]):
+                if math.isfinite(got[i]) and math.isfinite(want_m[i]) and not rc(got[i], want_m[i]):
                     return fail(label + ": base magnitude of every element is the product/quotient of the operands' "
                                 "elements as they were built (operands reused)", element=i, got=got[i], want=want_m[i],
                                 a_values_now=A.elems(a), a_values_built=a0, b_values_now=A.elems(b), b_values_built=b0)
